@@ -22,6 +22,9 @@ type NeedBin struct {
 type Spec struct {
 	Title       string
 	Level       string
+	LevelText   string // MANIFEST level_claimed.text
+	LevelNote   string // MANIFEST level_note
+	Technique   string
 	Rule        string
 	Assumptions []string
 	Runs        []Run
@@ -43,6 +46,9 @@ func instrument(bdir string, repl map[string]string) error {
 
 func init() {
 	specs["C07"] = &Spec{
+		LevelText: "Every header input in the stated finite families (all line sequences to depth 4/5 over a 40-kind line alphabet incl. every malformed variant, all byte strings to length 6/7 over 8 symbols in every line slot, every one-byte edit of valid headers, all well-formed headers of a shape family incl. >4 KiB lines) is parsed by the real format.Parse in 4 delivery modes and compared two-sidedly with an independent strict recogniser; inside these bounds no non-canonical header is accepted and no canonical one refused. Exploration is the right level: the property quantifies over inputs of a sequential parser.",
+		LevelNote: "trusts the reference recogniser refage.ParseHeader (written from the spec, cross-checked against the CCTV vectors) and that inputs outside the alphabets follow the same parser branches",
+		Technique: "bounded-exhaustive input enumeration on the implementation, differential against an independent reference recogniser",
 		Title: "Header encoding is canonical: parsing and marshalling are inverse",
 		Level: "exploration",
 		Rule: "bounded-exhaustive enumeration of header inputs (all line sequences up to a depth over a line alphabet covering every malformed variant, all short byte strings over an 8-symbol alphabet in each line slot, every one-byte edit of valid headers) and of all well-formed headers in a shape family; each input is judged two-sidedly against an independent strict recogniser/serialiser (refage): accepted => Marshal+payload == input and reference accepts with equal fields; rejected => nil header, nil reader and reference rejects. distinct_nontrivial counts distinct accepted inputs (line sequences, byte strings), distinct edited inputs and distinct well-formed headers.",
@@ -53,10 +59,26 @@ func init() {
 
 func init() {
 	specs["C01"] = &Spec{
+		LevelText: "All recipient lists up to length 3/4 over six recipient kinds (+passphrase alone) x sizes at every 64 KiB seam (real build) and every size 0..3C+1 plus 256-chunk carries (scaled build of the same sources) x armor x write segmentations x identity lists with the match at every position are encrypted and decrypted by the real code; each result is also opened by the independent reference decoder. Exploration over configurations and inputs.",
+		LevelNote: "trusts the reference decoder and the fixed key fixtures; scaled build differs only in ChunkSize",
+		Technique: "bounded-exhaustive configuration/input enumeration on the implementation with an independent reference decoder as second oracle",
 		Title: "Every listed recipient decrypts to the exact plaintext",
 		Level: "exploration",
 		Rule: "bounded-exhaustive enumeration of (recipient list, plaintext length, armor, write segmentation, identity list with the matching identity at every position among non-matching identities of every type) on the real build (lengths around multiples of 64 KiB) and on a scaled build of the same sources (ChunkSize=16: every length 0..3C+1 and lengths crossing the 256-chunk counter carry); oracle: Decrypt succeeds, exact bytes, clean EOF, identities consulted in order and none after the first match, and the independent reference decoder opens the same file. distinct_nontrivial counts distinct (list,size,armor,segmentation) files.",
 		Assumptions: commonAssume,
 		Runs: []Run{{Pkg: hp + "c01", Variant: "real"}, {Pkg: hp + "c01", Variant: "scaled16", Optional: true}},
+	}
+}
+
+func init() {
+	specs["C02"] = &Spec{
+		LevelText: "The STREAM acceptance automaton (reference model) and the real stream.Reader are run on every chunk sequence up to depth 4/5 (scaled) and 3 (real size) over a 31-variant chunk alphabet x 3 trailers and must agree on verdict, released bytes, stickiness and canonical chunking; every bit flip, truncation length and trailing extension of real files (exhaustive on small/scaled files, all seams +-17 at real size) goes through age.Decrypt. Model checking with full model-trace replay on the implementation.",
+		LevelNote: "trusts the automaton as a reading of the STREAM spec (validated on the CCTV stream_* vectors in C05) and the ChunkSize-only difference of the scaled build",
+		Technique: "explicit-state model (STREAM automaton) + exhaustive depth-bounded sequence enumeration replayed on the implementation; exhaustive bit-flip/truncation enumeration",
+		Title: "Tampered, truncated or reordered payload is never accepted",
+		Level: "model_checking",
+		Rule: "model = STREAM acceptance automaton over byte streams (refage.OpenStream: state = chunk counter x final-seen x failed). Every chunk sequence up to the depth bound over the chunk-variant alphabet is generated, judged by the automaton and executed on the real stream.Reader (traces_validated_against_impl = sequences x read styles): verdict, released bytes, stickiness and canonical-chunking must agree. Every single-bit flip / truncation length / trailing extension of real files is executed through age.Decrypt. Scaled build (ChunkSize=16, same sources) for depth and exhaustive offsets, real build for the 64 KiB seams. states = distinct automaton end states observed (chunks opened x verdict x reason).",
+		Assumptions: append([]string{"the scaled build differs from the real one only in the value of stream.ChunkSize; STREAM logic depends on lengths only through comparisons with it (the real-size run covers every seam +-17 bytes independently)"}, commonAssume...),
+		Runs: []Run{{Pkg: hp + "c02", Variant: "scaled16", Optional: true}, {Pkg: hp + "c02", Variant: "real"}},
 	}
 }
